@@ -405,16 +405,23 @@ pub fn parse_choice_text(input: &str) -> Result<ParsedChoiceText, CompilerError>
         } else {
             suffix.to_owned()
         };
+        // A tag ends at `[`: the text after `[]` is not part of a tag before it.
         let (start_text, start_tags) = split_text_and_tags(&display)?;
-        let selected = if suffix.is_empty() {
-            Some(display.clone())
-        } else if suffix.starts_with(|c: char| c.is_ascii_punctuation() && c != '"' && c != '\'') {
-            Some(format!("{display}{suffix}"))
+        let (suffix, suffix_tags) = split_text_and_tags(&suffix)?;
+        let selected_start = if start_tags.is_empty() {
+            display.as_str()
         } else {
-            Some(format!("{display} {suffix}"))
+            start_text.trim_end()
         };
-        let (selected_text, selected_tags) =
-            split_text_and_tags(selected.as_deref().unwrap_or(""))?;
+        let selected_text = if suffix.is_empty() {
+            selected_start.to_owned()
+        } else if suffix.starts_with(|c: char| c.is_ascii_punctuation() && c != '"' && c != '\'') {
+            format!("{selected_start}{suffix}")
+        } else {
+            format!("{selected_start} {suffix}")
+        };
+        let mut selected_tags = start_tags.clone();
+        selected_tags.extend(suffix_tags);
         return Ok(ParsedChoiceText {
             display_text: start_text.clone(),
             selected_text: Some(selected_text),
